@@ -38,6 +38,7 @@ func AllocSampling(small, large int) {}
 func Note(s string)                {}
 func Yield(tag string)             {}
 func Quiesce()                     {}
+func SwitchBudget(n int)           {}
 func Threads()                     {}
 func Hook(name string, f interface{}) {}
 func SetClock(sec, nsec, stepNs int64) {}
